@@ -39,4 +39,8 @@ structure ZerosShape where
   rows : Nat → Nat → Nat → Nat → Nat → Option Nat
   cols : Nat → Nat → Nat → Nat → Nat → Option Nat
 
+/-- what the translator emits for element-wise code it cannot re-express: an opaque value, about which
+    nothing can be proved -/
+opaque unknownFormula (what : String) : Rat
+
 end Boario.Gen
